@@ -188,6 +188,7 @@ def run(ctx):
     def lane_small():
         dd = lanes["small"]
         fold_gen(dd, "FamilyAscii", 3 if q else 4, 2, w_small, 1)
+        fold_gen(dd, "FamiliesCaseless", 3, 2 if q else 3, w_small, 1 if q else 3)   # caseless 2-, 3-, 4-byte runes
         fold_gen(dd, "FamiliesPunct", 3, 2 if q else 3, w_small, 1 if q else 3)   # ASCII punctuation / controls next to letters
         if not q:
             fold_gen(dd, "FamilyMix", 3, 3, w_small, 1)
